@@ -26,8 +26,10 @@ structure Owed (s : State) (h c0 : Nat) : Prop where
   cnt : (s.hs h).cbs = c0
   pc : noClosePc s
 
+/-- continuation actions of the liveness theorem: no uv_close, no fork (a fork drops undelivered sends in the child by design) -/
 def notClose : Act → Prop
   | .close _ => False
+  | .fork => False
   | _ => True
 
 /-- an enabled loop step starts the callback or strictly decreases the measure -/
@@ -94,6 +96,7 @@ theorem owed_step {s : State} {h c0 : Nat} (a : Act) (ha : notClose a) (ho : Owe
     simp only [Option.getD_some]
     cases a with
     | close _ => exact absurd ha (by simp [notClose])
+    | fork => exact absurd ha (by simp [notClose])
     | eintr w => right; cases step?_eintr hs; exact ⟨ho, Nat.le_refl _⟩
     | begin t h0 =>
       simp only [step?] at hs
@@ -151,6 +154,11 @@ theorem step_snd_length (s : State) (a : Act) : (step s a).snd.length = s.snd.le
       repeat' split at hs
       all_goals first | (simp at hs; done) | skip
       all_goals (simp only [Option.some.injEq] at hs; subst hs; simp [setH])
+    | fork =>
+      simp only [step?] at hs
+      split at hs
+      · simp only [Option.some.injEq] at hs; subst hs; simp
+      · simp at hs
     | eintr w => cases step?_eintr hs; rfl
     | closeCbs =>
       simp only [step?] at hs
@@ -201,6 +209,7 @@ theorem helpful_dec {s : State} {h c0 : Nat} {a : Act} (ho : Owed s h c0) (hh : 
   | close _ => exact absurd hh (by simp [Helpful])
   | closeCbs => exact absurd hh (by simp [Helpful])
   | eintr _ => exact absurd hh (by simp [Helpful])
+  | fork => exact absurd hh (by simp [Helpful])
 
 /-- a step that is not a loop step and not uv_close leaves the loop thread where it is; the eventfd counter can only grow;
 other senders are untouched -/
@@ -215,6 +224,7 @@ theorem nonloop_frame (s : State) (b : Act) (hb : notClose b) (hnl : b ≠ .loop
     cases b with
     | loop => exact absurd rfl hnl
     | close _ => exact absurd hb (by simp [notClose])
+    | fork => exact absurd hb (by simp [notClose])
     | begin t h0 =>
       simp only [step?] at hs
       repeat' split at hs
@@ -263,6 +273,7 @@ theorem helpful_persist {s : State} {h : Nat} {a b : Act} (hh : Helpful s a)
   | close _ => exact absurd hh (by simp [Helpful])
   | closeCbs => exact absurd hh (by simp [Helpful])
   | eintr _ => exact absurd hh (by simp [Helpful])
+  | fork => exact absurd hh (by simp [Helpful])
 
 /-! ### the infinite-schedule argument -/
 def runN (σ : Nat → Act) (n : Nat) (s : State) : State := (List.range n).foldl (fun s i => step s (σ i)) s
